@@ -191,6 +191,7 @@ pub fn check(hdr: &str, lines: &[String], trace: &[(String, Vec<String>)], mon: 
     let mut outstanding_sol: Vec<u64> = Vec::new();
 
     for (k, (op, outs)) in trace.iter().enumerate() {
+        let mut cancel_unsol_after_tx = false;
         let ws: Vec<&str> = op.split_whitespace().collect();
         if ws.is_empty() || dead {
             continue;
@@ -347,8 +348,18 @@ pub fn check(hdr: &str, lines: &[String], trace: &[(String, Vec<String>)], mon: 
             let processed = (unicast && accepted && outs.iter().any(|o| o.starts_with("tx ")))
                 || (dst >= 0xFFFD && outs.iter().any(|o| o.starts_with("cb broadcast") && o.ends_with("processed")));
             if f.len() >= 2 && f[1] == 21 && f[0] & 0xF0 == 0xC0 && unsolicited && processed && unicast && !repeat_request {
-                // DISABLE_UNSOLICITED handled during the wait cancels the series (no callback tells)
-                outstanding_unsol.clear();
+                // DISABLE_UNSOLICITED handled during the wait cancels the series (no callback tells); a request
+                // retained by an aborted solicited confirm wait is processed AFTER the idle pass that may have
+                // started an unsolicited response in this same op: then that new series is the one cancelled
+                let txb: Vec<Vec<u8>> = outs.iter().filter(|o| o.starts_with("tx ")).map(|o| unhex(o.split_whitespace().nth(2).unwrap_or("-"))).collect();
+                let first_uns = txb.iter().position(|b| b.len() >= 2 && b[1] == 0x82);
+                let first_reply = txb.iter().position(|b| b.len() >= 2 && b[1] == 0x81 && (b[0] & 0x0F) == (f[0] & 0x0F));
+                let after = outs.iter().any(|o| o.starts_with("cb sol_new_request")) && matches!((first_uns, first_reply), (Some(u), Some(r)) if u < r);
+                if after {
+                    cancel_unsol_after_tx = true;
+                } else {
+                    outstanding_unsol.clear();
+                }
             }
             if f.len() >= 2 && (f[1] == 20 || f[1] == 21) && f[0] & 0xF0 == 0xC0 && unsolicited && processed && !(repeat_request && unicast) {
                 let objs = &f[2..];
@@ -446,7 +457,7 @@ pub fn check(hdr: &str, lines: &[String], trace: &[(String, Vec<String>)], mon: 
 
         let mut echo_op = false;
         // ---- a new READ request starts a series expectation (snapshot at request time)
-        if ws[0] == "rx" && ws[1] == "1" && ws[2] == "1024" {
+        if ws[0] == "rx" && (ws[1] == "1" || anymaster) && ws[1].parse::<u32>().map_or(false, |s| s < 0xFFF0) && (ws[2] == "1024" || (ws[2] == "65532" && selfaddr)) {
             let f = unhex(ws[3]);
             let echo_of_read = in_sol_wait && last_read.as_ref() == Some(&f) && !outs.iter().any(|o| o.starts_with("cb sol_new_request"));
             if f.len() >= 2 && f[1] == 1 && f[0] & 0xF0 == 0xC0 {
@@ -459,8 +470,10 @@ pub fn check(hdr: &str, lines: &[String], trace: &[(String, Vec<String>)], mon: 
                 // the expectation (snapshot) is taken when the first fragment is transmitted: at once for a
                 // READ processed from idle, when the unsolicited series ends for a deferred READ
                 series = expected_static(&f[2..], &bin_pts, &an_pts).map(|want| Series { req: f[2..].to_vec(), want, got: Vec::new(), first_seq: f[0] & 0x0F, next_seq: f[0] & 0x0F, frags: 0, valid: true });
-            } else if f.len() >= 2 && f[1] != 0 {
-                series = None; // superseded
+            } else if f.len() >= 2 && !(f[1] == 0 && f[0] & 0xC0 == 0xC0) {
+                // anything but a well-formed CONFIRM supersedes (header errors such as a non FIR/FIN control
+                // octet included: they are answered with the request's sequence number)
+                series = None;
             }
         }
         if outs.iter().any(|o| o.starts_with("cb sol_timeout") || o.starts_with("cb sol_new_request")) {
@@ -623,6 +636,9 @@ pub fn check(hdr: &str, lines: &[String], trace: &[(String, Vec<String>)], mon: 
         }
         for (c, v) in pending_enable {
             enabled[c] = v;
+        }
+        if cancel_unsol_after_tx {
+            outstanding_unsol.clear();
         }
         for o in outs {
             if o.starts_with("cb sol_wait") {
